@@ -229,6 +229,10 @@ func handleSetUser(params internal.HandlerFuncParams) ([]byte, error) {
 	if len(params.Command) < 3 {
 		return nil, errors.New(constants.WrongArgsResponse)
 	}
+	if strings.ContainsAny(params.Command[2], " \r\n\x00") {
+		// User names are echoed in single-line replies and in the ACL file.
+		return nil, errors.New("usernames cannot contain spaces, line breaks or null characters")
+	}
 	if err := acl.SetUser(params.Command[2:]); err != nil {
 		return nil, err
 	}
